@@ -58,6 +58,10 @@ func faultBackend(ln net.Listener) {
 				case "garbage":
 					c.Write([]byte("SSH-2.0-NotHTTP\r\n\x00\x01\x02garbage\r\n\r\n"))
 					return
+				case "stall_body":
+					c.Write([]byte("HTTP/1.1 200 OK\r\nContent-Type: text/plain\r\nContent-Length: 100\r\n\r\n0123456789"))
+					time.Sleep(9 * time.Second)
+					return
 				case "s500":
 					c.Write([]byte("HTTP/1.1 500 Internal Server Error\r\nContent-Type: text/plain\r\nContent-Length: 4\r\n\r\nboom"))
 				case "slow_body":
@@ -176,7 +180,7 @@ func runFault(idx int, raw json.RawMessage, seed int64) map[string]any {
 	var c faultCase
 	json.Unmarshal(raw, &c)
 	cfg := baseConfig(c.Strategy, faultBackends(), "")
-	cfg.Server.Timeouts = config.TimeoutConfig{Read: 2, Write: 3, Idle: 5, BackendDial: 1, BackendRead: 1, BackendIdle: 5}
+	cfg.Server.Timeouts = config.TimeoutConfig{Read: 2, Write: 3, Idle: 5, Handler: 4, BackendDial: 1, BackendRead: 1, BackendIdle: 5}
 	if c.F.Passive {
 		cfg.HealthChecks.Passive = config.PassiveHealthCheckConfig{Enabled: true, UnhealthyThreshold: 2, UnhealthyTimeout: 1}
 	}
@@ -227,6 +231,9 @@ func runFault(idx int, raw json.RawMessage, seed int64) map[string]any {
 		return st
 	}
 	p1 := probe()
+	// the proxy now passes response bytes on as they arrive, so the client can hold the complete answer a moment
+	// before the breaker has booked the half-open trial as finished; the second probe is about the state after that
+	time.Sleep(150 * time.Millisecond)
 	p2 := probe()
 	time.Sleep(50 * time.Millisecond)
 	gz := true
